@@ -39,6 +39,22 @@ Theorem C07_noast_switch_language :
 Proof. intros g tab rank Hwf Hopt Hg Hg' Hsw Hsw' ptx buf penv Hb Hv. exact (c07_noast_switch g tab rank Hwf Hopt Hg' Hsw' ptx buf penv Hb Hv). Qed.
 Print Assumptions C07_noast_switch_language.
 
+(** The same without side conditions on the analysis or on the optimised tree (Proofs/OptSwok.v). *)
+Theorem C07_noast_switch_language_unconditional :
+  forall g tab rank, wf_b g tab rank = true -> good_grammar g ->
+  (forall r b, nth_error g r = Some (RBody b) -> ranges_ok b = true) ->
+  forall ptx buf penv, good_buf buf -> valid_buf buf ->
+  forall inline r rb st0,
+    (forall rb0, nth_error (optimize g) ptx = Some rb0 -> rb0 = RNil) ->
+    nth_error g r = Some rb -> rb <> RNil ->
+    o_inline (mk_opts false false inline (optimize g)) r = false ->
+    exists n res evs st',
+      peg_parse g ptx buf penv n r = Some (res, evs) /\
+      machine_noast (optimize g) ptx buf penv inline n r st0 = Some (Ret (match res with Fail => false | Succ _ _ => true end) st') /\
+      match res with Succ p _ => pos st' = p /\ p <= length buf | Fail => True end.
+Proof. exact c07_noast_switch_strong. Qed.
+Print Assumptions C07_noast_switch_language_unconditional.
+
 (** non-vacuity: on "aby" the action of the abandoned first alternative R1 'x' DOES run inline
     (three times in all: once per attempt of R1), each time with text = [0,2) *)
 Example C07_nonvacuous :
